@@ -77,6 +77,34 @@ func (w *vWorld) setPartitions() *vPartitioner {
 	return p
 }
 
+// iterFault arms one transient engine fault: step number `step` of an iterator that scans piece
+// number `piece` of the partitioned interval fails, once. A piece is identified by where the
+// iterator starts relative to the (adjusted) borders, so the choice does not depend on how the
+// workers' scans interleave.
+func (w *vWorld) iterFault(p *vPartitioner, maxStep int) {
+	piece := zzverif.Choose("iterFaultPiece", len(p.borders)+2) - 1 // -1: no fault
+	step := zzverif.Choose("iterFaultStep", maxStep)
+	fired := false
+	w.s.IterFault = func(start []byte, n int) bool {
+		if fired || piece < 0 || n != step {
+			return false
+		}
+		idx := 0
+		for _, b := range p.borders {
+			name, _, err := w.b.coder.Decode(b)
+			if err == nil && bytes.Compare(w.b.coder.EncodeObjectKey(name, 0), start) <= 0 {
+				idx++
+			}
+		}
+		if idx != piece {
+			return false
+		}
+		fired = true
+		zzverif.Cover("iterator-fault")
+		return true
+	}
+}
+
 func (w *vWorld) checkStream(start, end []byte, r uint64) {
 	ch, err := w.b.ListByStream(vCtx(), w.b.coder.EncodeObjectKey(start, 0), w.b.coder.EncodeObjectKey(end, 0), r)
 	zzverif.Assert(err == nil, "stream starts")
@@ -120,21 +148,14 @@ func (w *vWorld) checkStream(start, end []byte, r uint64) {
 func VerifC13Partitions() {
 	w := vNewWorld(zzverif.Param("keys", 2))
 	w.history()
-	w.setPartitions()
+	p := w.setPartitions()
 	if nf := zzverif.Param("iterfaults", 0); nf > 0 {
-		// one transient engine fault at any of the first nf iterator steps of the read: the worker
-		// retries its partition, and the result must be what it is without the fault
-		at := zzverif.Choose("iterFaultAt", nf+1) - 1
-		w.s.NNext = 0
-		w.s.IterFault = func(n int) bool {
-			if n == at {
-				zzverif.Cover("iterator-fault")
-				return true
-			}
-			return false
-		}
+		// one transient engine fault at any of the first nf steps of the scan of any piece: the
+		// worker retries its partition, and the result must be what it is without the fault
+		w.iterFault(p, nf)
 	}
-	rg := vRanges[0]
+	// the scanned interval: the whole prefix, or one that starts (or ends) exactly on a stored key
+	rg := vRanges[[]int{0, 1, 4}[zzverif.Choose("range", zzverif.Param("ranges", 3))]]
 	switch zzverif.Choose("read", 3) {
 	case 0:
 		r := w.readRev("R")
@@ -159,16 +180,8 @@ func VerifC13Retry() {
 	w.create("k2", vNames[2])
 	w.vWriteSeqOn(vNames[1], 1)
 	zzverif.WaitIdle()
-	w.setPartitions()
-	at := zzverif.Choose("iterFaultAt", zzverif.Param("iterfaults", 8)+1) - 1
-	w.s.NNext = 0
-	w.s.IterFault = func(n int) bool {
-		if n == at {
-			zzverif.Cover("iterator-fault")
-			return true
-		}
-		return false
-	}
+	p := w.setPartitions()
+	w.iterFault(p, zzverif.Param("iterfaults", 8))
 	rg := vRanges[0]
 	switch zzverif.Choose("read", 3) {
 	case 0:
